@@ -153,7 +153,7 @@ func writerFaults(run *vrun.Run, c *faultCtx, orig fs.VerifIndex) {
 			var err error
 			pv, where := vrun.Catch(func() { err = fs.VerifSerialize(orig, w) })
 			run.Eval(1)
-			wit := FaultWitness{Part: "fault", Spec: c.spec, Variant: "writer-fail", Pos: k, Val: partial}
+			wit := FaultWitness{Part: "fault", K: c.k, Spec: c.spec, Variant: "writer-fail", Pos: k, Val: partial}
 			if pv != nil {
 				run.Violation("C16/writer/panic@"+vrun.TopFrame(where), fmt.Sprintf("index %d: serializeTo panicked when write call %d failed: %v at %s", c.k, k, pv, where), wit)
 				return
@@ -233,7 +233,7 @@ func straceSweep(run *vrun.Run, c *faultCtx, dir string, eio bool) {
 			}
 			run.Cover("c:strace-run:" + kind)
 			img, _ := os.ReadFile(out)
-			wit := FaultWitness{Part: "fault", Spec: c.spec, Variant: "crash-strace-" + kind, Pos: N, Val: short, Strict: true}
+			wit := FaultWitness{Part: "fault", K: c.k, Spec: c.spec, Variant: "crash-strace-" + kind, Pos: N, Val: short, Strict: true}
 			before := 0
 			for _, n := range base.writes[:N-1] {
 				before += n
